@@ -151,8 +151,14 @@ def observe(c, rid, rng):
     import valuesem
     vals = {"c1": rand_in(), "c2": rand_in(), "c3": rand_in()}
     vs = []
-    for h in VS_HISTS:
-        vs = valuesem.replay(h, vals, w.call, lambda a: ref_dft(a.astype(np.complex128) if not in_real else a, c), tol=tol)
+    for hk, h in enumerate(VS_HISTS):
+        # a wrapper of its own per history, constructed from a MUTABLE dims list that the caller reuses afterwards
+        # (ValueSemantics!OverwriteCtor): the plan must be the one for the dims given at construction
+        dims_arg = list(dims)
+        wv = FFTWrapper(dims_arg, ntransform=nt, fwd=c["fwd"], r2c=c["r2c"], inplace=c["inplace"], batch_first=c["bf"])
+        other = {"c1": list(dims), "c2": list(reversed(dims)) if list(reversed(dims)) != list(dims) else [d + 1 for d in dims], "c3": [d + 2 for d in dims]}
+        vs = valuesem.replay(h, vals, wv.call, lambda a: ref_dft(a.astype(np.complex128) if not in_real else a, c), tol=tol,
+                             overwrite_ctor=lambda cn: dims_arg.__setitem__(slice(None), other[cn]))
         if vs:
             break
     return {"id": rid, "vs_ok": not vs, "vs_clause": vs[0][0] if vs else "",
